@@ -204,8 +204,10 @@ impl Check for C02 {
          stdlib calls with script callbacks, allocating / re-entering host stubs); it is run without collections and then under \
          collector schedules decided by the simulator through the production threshold branch: every allocation point, each \
          single allocation point (all of them up to a per-tier cap), every k-th, seeded random subsets, and the natural \
-         schedule under small limits. A run is non-trivial if at least one collection actually ran; distinct = distinct \
-         (program hash, schedule hash)."
+         schedule under small limits; then the same injected fault (a host call failing / returning nil, a failing \
+         allocation) with and without collections. Stack sizes are seeded per case. The programs include long tables sorted by \
+         fresh keys, closures suspended under nested calls, multi-byte strings and tables that are changed while they are keys. \
+         A run is non-trivial if at least one collection actually ran; distinct = distinct (program hash, schedule hash)."
             .to_string()
     }
     fn cases(&self, tier: Tier) -> u64 {
